@@ -753,6 +753,15 @@ func runC12(c *Ctx) {
 	// ---------------- oracle (d): token positions
 	for i := 0; i < 8000*scale; i++ {
 		toks := c.c12LayoutTokens()
+		if c11AnySpace {
+			// with the repaired acceptWord `not` followed by `in` is ONE operator whatever white space separates them:
+			// two separate tokens `not`, `in` cannot be laid out at all
+			for j := 1; j < len(toks); j++ {
+				if toks[j-1].text == "not" && toks[j].text == "in" {
+					toks[j] = c12Tok{"or", lexer.Operator, "or", 0}
+				}
+			}
+		}
 		var b strings.Builder
 		b.WriteString(c.c12WS(0))
 		starts := make([]int, len(toks))
